@@ -28,6 +28,15 @@ def run(rep, tier, seed, replay):
         # the size rule (R7): invariants of 0x10000 bytes or more assembled from one token or from siblings
         big = ["<a:33000>", "<b:33000>", "<a:65535>", "<a:65536>", "<ab:32768>", "<<a:300>:300>", "<<a:256>:256>", "b", "/", "*", "{<a:33000><b:33000>,c}", "<a:32768><b:32767>", "<é:32768>"]
         exprs += [e for e in gen.small_scope(2, big) + ["<<a:33000><b:33000>:0,1>", "*/{c,x<a:65535>}", "x{<a:65535>b,c}"] if e not in set(exprs)]
+    if replay is None:
+        # the size rule at its boundary with EVERY kind of token inside the repeated text (each kind has its own size term:
+        # literals by bytes, classes, ?, alternatives of equal and of different size, flags)
+        toks = ["[a]", "[!a]", "[a-c]", "[!a-c]", "?", "(?i)a", "{a,b}", "{ab,cd}", "{a,bc}", "é", "[é]", "[!é]", "<c:2>", "<c:1,2>", "a"]
+        sz = []
+        for t in toks:
+            sz += ["<%s<b:60>:1024>" % t, "<%s<b:61>:1024>" % t, "<%s<b:59>:1024>" % t, "<%s:16384>" % t, "<%s:16383>" % t, "<%s:8192><b:32768>" % t,
+                   "<%s:65535>" % t, "<%s:65536>" % t, "x/<{%s<b:60>,%s<c:60>}:1024>" % (t, t)]
+        exprs += [e for e in sz if e not in set(exprs)]
     P = lib.Pair(exprs)
     h, m = P.h, P.m
     rep.evaluations = len(exprs)
